@@ -64,17 +64,116 @@ def _as_input(a, case, allow_tuple=False, which=None):
     return a
 
 
-def build_dataset(aa, case):
-    m = mask_from_json(case["mask"])
+# ---- compact ("recipe") forms used by the large stream: a case never carries a huge literal array ----------
+def _mask_np(mj):
+    """protocol mask {"h","w","bits"} or the compact form {"h","w","rects":[[y0,x0,y1,x1],…] (unmasked,
+    half-open), "holes":[[y,x],…] (masked again)} -> numpy bool array, True = masked."""
+    if "bits" in mj:
+        return mask_from_json(mj)
+    m = np.ones((mj["h"], mj["w"]), dtype=bool)
+    for y0, x0, y1, x1 in mj.get("rects", []):
+        m[y0:y1, x0:x1] = False
+    for y, x in mj.get("holes", []):
+        m[y, x] = True
+    return m
+
+
+_NOISE_LEVELS = np.array([0.5, 1.0, 2.0, 4.0, 0.25, 1.5])
+
+
+def _hash(idx, seed, mod):
+    """deterministic pseudo-random integers in [0, mod) for integer index arrays (splitmix-style; no
+    arithmetic structure that could hide a flipped / transposed / shifted access)."""
+    with np.errstate(over="ignore"):
+        x = np.asarray(idx).astype(np.uint64) * np.uint64(6364136223846793005) + np.uint64(1442695040888963407)
+        x = x + np.uint64(int(seed) % (1 << 32)) * np.uint64(0x9E3779B97F4A7C15)
+        x ^= x >> np.uint64(33)
+        x = x * np.uint64(0xFF51AFD7ED558CCD)
+        x ^= x >> np.uint64(29)
+    return ((x >> np.uint64(20)) % np.uint64(mod)).astype(np.int64)
+
+
+def _native_vals(spec, which, h, w):
+    """native (h, w) float array of `data` / `noise`: a literal list of "p/q" strings, or a recipe
+    {"gen": seed} (deterministic signed dyadic data, noise from six levels; the same reals for the
+    implementation and for the oracle)."""
+    if isinstance(spec, dict):
+        i = np.arange(h * w, dtype=np.int64)
+        if which == "noise":
+            if spec.get("const") is not None:
+                return np.full((h, w), _f(spec["const"]))
+            return _NOISE_LEVELS[_hash(i, spec["gen"], 6)].reshape(h, w)
+        return ((_hash(i, spec["gen"], 33) - 16) / 4.0).reshape(h, w)
+    return _arr(spec).reshape(h, w)
+
+
+def _kernel_np(k):
+    """(kh, kw) float kernel: literal values or the recipe {"gen": seed}: signed, no point / mirror symmetry."""
+    kh, kw = k["kh"], k["kw"]
+    if "vals" in k:
+        return _arr(k["vals"]).reshape(kh, kw)
+    K = ((_hash(np.arange(kh * kw, dtype=np.int64), k["gen"], 12) - 3) / 8.0).reshape(kh, kw)
+    K[kh // 2, kw // 2] += 1.0
+    return K
+
+
+def _func_matrix_np(o, n):
+    if "matrix" in o:
+        return _mat(o["matrix"])
+    p = int(o["params"])
+    return ((_hash(np.arange(n * p, dtype=np.int64), o["gen"], 11) - 4) / 4.0).reshape(n, p)
+
+
+def _points_np(o):
+    if "points" in o:
+        return np.array([(_f(p[0]), _f(p[1])) for p in o["points"]])
+    g = o["points_gen"]
+    t, s = int(g["n"]), int(g["seed"])
+    y0, y1, x0, x1 = (_f(v) for v in g["extent"])
+    m = int(np.ceil(np.sqrt(t)))
+    k = np.arange(t, dtype=np.int64)
+    a, b = k // m, k % m
+    jy = ((a * 7 + b * 13 + s) % 8 - 4) / 16.0
+    jx = ((a * 11 + b * 5 + 3 * s) % 8 - 4) / 16.0
+    return np.stack([y0 + (a + 0.5 + jy) / m * (y1 - y0), x0 + (b + 0.5 + jx) / m * (x1 - x0)], axis=1)
+
+
+def _degenerate(e):
+    """Qhull rejecting a degenerate (collinear / duplicate) point set — the library wraps it in a bare
+    `MeshException` — is outside the property (no mesh exists)."""
+    seen = 0
+    while e is not None and seen < 4:
+        if "Qhull" in type(e).__name__ or "qhull" in str(e).lower():
+            return True
+        if type(e).__name__ == "MeshException" and e.__cause__ is not None and (
+                "Qhull" in type(e.__cause__).__name__ or "qhull" in str(e.__cause__).lower()
+                or isinstance(e.__cause__, (ValueError, OverflowError))):
+            return True
+        e = e.__cause__
+        seen += 1
+    return False
+
+
+def _readonly(a, case):
+    """history axis: the caller's arrays are handed over read-only (same values)."""
+    if case.get("readonly") and isinstance(a, np.ndarray):
+        a = np.array(a, copy=True)
+        a.flags.writeable = False
+    return a
+
+
+def build_dataset(aa, case, mask=None):
+    m = _mask_np(case["mask"])
     h, w = m.shape
     ps = tuple(_f(v) for v in case.get("pixel_scales", ["1", "1"]))
     org = tuple(_f(v) for v in case.get("origin", ["0", "0"]))
-    mask = aa.Mask2D(mask=m, pixel_scales=ps, origin=org)
+    if mask is None:      # (histories hand in the Mask2D object of an earlier world: shared on purpose)
+        mask = aa.Mask2D(mask=m, pixel_scales=ps, origin=org)
     k = case["kernel"]
-    kern = _as_input(_arr(k["vals"]).reshape(k["kh"], k["kw"]), case, which="kernel")
+    kern = _readonly(_as_input(_kernel_np(k), case, which="kernel"), case)
     psf = aa.Kernel2D.no_mask(values=kern, pixel_scales=ps)
-    dn = _as_input(_arr(case["data"]).reshape(h, w), case, which="data")
-    nn = _as_input(_arr(case["noise"]).reshape(h, w), case, which="noise")
+    dn = _readonly(_as_input(_native_vals(case["data"], "data", h, w), case, which="data"), case)
+    nn = _readonly(_as_input(_native_vals(case["noise"], "noise", h, w), case, which="noise"), case)
     if case.get("via", "apply_mask") == "direct":
         # masked structures handed to the constructor: the PSF is used exactly as given
         ds = aa.Imaging(data=aa.Array2D(values=dn, mask=mask), noise_map=aa.Array2D(values=nn, mask=mask),
@@ -105,19 +204,55 @@ def source_grid(aa, mask, case):
     return ovs, aa.Grid2DIrregular(values=g)
 
 
+_FAULTY = {}
+
+
+def _faulty_class():
+    """a user-defined linear object (public extension point `AbstractLinearObjFuncList`) whose
+    `mapping_matrix` raises on its k-th read after being armed, once (history axis "fault then reuse")."""
+    if "cls" not in _FAULTY:
+        from autoarray.inversion.mock.mock_linear_obj_func_list import MockLinearObjFuncList
+
+        class FaultyFuncList(MockLinearObjFuncList):
+            _countdown = None
+
+            def arm(self, k):
+                self._countdown = int(k)
+
+            def disarm(self):
+                self._countdown = None
+
+            @property
+            def mapping_matrix(self):
+                if self._countdown is not None:
+                    self._countdown -= 1
+                    if self._countdown <= 0:
+                        self._countdown = None
+                        raise RuntimeError("user function failed")
+                return self._mapping_matrix
+
+        _FAULTY["cls"] = FaultyFuncList
+    return _FAULTY["cls"]
+
+
 def build_objects(aa, mask, ds, case):
     from autoarray.inversion.mock.mock_linear_obj_func_list import MockLinearObjFuncList
 
     objs = []
+    n_pix = int(mask.pixels_in_mask)
     for o in case["objs"]:
         reg = aa.reg.Constant(coefficient=_f(o.get("coeff", "1"))) if o["reg"] else None
         if o["kind"] == "func":
-            mm = _mat(o["matrix"])
+            mm = _func_matrix_np(o, n_pix)
             # the mock hands the matrix to `convolve_matrix_jit` as is: ndarray, in the case's dtype
             fdt = case.get("dtypes", {}).get("func", case.get("dtype", "float"))
             mm_in = np.asarray(_as_input(mm, {"container": "ndarray", "dtype": "int" if fdt in ("int", "pyint") else fdt}))
-            objs.append(MockLinearObjFuncList(parameters=mm.shape[1], grid=ds.grids.uniform,
-                                              mapping_matrix=mm_in, regularization=reg))
+            if mm_in is mm or np.shares_memory(mm_in, mm):
+                mm_in = np.array(mm_in, copy=True)       # caller-owned buffer (histories edit it in place)
+            mm_in = _readonly(mm_in, case)
+            cls = _faulty_class() if o.get("faulty") else MockLinearObjFuncList
+            objs.append(cls(parameters=mm.shape[1], grid=ds.grids.uniform,
+                            mapping_matrix=mm_in, regularization=reg))
             continue
         ovs, grid = source_grid(aa, mask, {**case, **({"sub": o["sub"]} if "sub" in o else {})})
         if o["kind"] == "rect":
@@ -125,7 +260,7 @@ def build_objects(aa, mask, ds, case):
             mg = mesh.mapper_grids_from(mask=mask, border_relocator=None, source_plane_data_grid=grid)
         else:
             mesh = aa.mesh.Delaunay()
-            pv = np.array([(_f(p[0]), _f(p[1])) for p in o["points"]])
+            pv = _points_np(o)
             if np.array_equal(np.rint(pv), pv):
                 pv = _as_input(pv, case, allow_tuple=True, which="points")   # integer-valued vertices
             elif case.get("container") in ("list", "tuple"):
@@ -135,13 +270,13 @@ def build_objects(aa, mask, ds, case):
                 mg = mesh.mapper_grids_from(mask=mask, border_relocator=None,
                                             source_plane_data_grid=grid, source_plane_mesh_grid=pts)
             except Exception as e:  # Qhull rejects degenerate point sets: outside the property
-                if "Qhull" in type(e).__name__ or "qhull" in str(e).lower():
+                if _degenerate(e):
                     raise Skip("degenerate Delaunay point set")
                 raise
         try:
             objs.append(aa.Mapper(mapper_grids=mg, over_sampler=ovs, regularization=reg))
         except Exception as e:
-            if "Qhull" in type(e).__name__ or "qhull" in str(e).lower():
+            if _degenerate(e):
                 raise Skip("degenerate Delaunay point set")
             raise
     return objs
@@ -154,7 +289,7 @@ def mapper_tables(obj):
         sizes = np.asarray(obj.pix_sizes_for_sub_slim_index).astype(int)
         wts = np.asarray(obj.pix_weights_for_sub_slim_index)
     except Exception as e:
-        if "Qhull" in type(e).__name__ or "qhull" in str(e).lower():
+        if _degenerate(e):
             raise Skip("degenerate Delaunay point set")
         raise
     rows = [[[int(idx[s, c]), q(wts[s, c])] for c in range(int(sizes[s]))] for s in range(idx.shape[0])]
@@ -184,7 +319,9 @@ class C04(PropertyCheck):
     nontrivial_rule = (
         "a case = one dataset + ordered object list, run with use_w_tilde off and on; non-trivial when the mask "
         "has >=2 unmasked and >=1 masked pixel and the kernel has >1 non-zero entry or the list has >1 object; "
-        "distinct = distinct case dict"
+        "distinct = distinct case dict; a history case (several observations of reused objects, each compared with "
+        "the model / oracle value of a freshly built object in that state) counts once, under the same rule on its "
+        "base dataset; a large (constant-directed, oracle-only) case is non-trivial with >= 2 unmasked pixels"
     )
     exhaustive_note = {
         "quick": "structural space enumerated completely (values inside each structural case are seeded-random): "
@@ -195,6 +332,8 @@ class C04(PropertyCheck):
                     "over {rectangular, Delaunay, function list} x every kernel shape in {1,3,5}^2 x {non-negative, "
                     "signed} on two fixed masks",
     }
+    # loop ties (DESIGN §12): regenerated from the source on every run, tie theorems proved for all sizes
+    loop_tie_modules = ["LoopsNormalEq"]
     modelled_functions = [
         "autoarray/operators/convolver.py:Convolver.__init__",
         "autoarray/operators/convolver.py:Convolver.frame_at_coordinates_jit",
@@ -269,6 +408,10 @@ class C04(PropertyCheck):
     assumptions = [
         "kernel footprint of every unmasked pixel inside the frame; noise map strictly positive; odd kernel",
         "reconstruction compared only when cond(F+H)*max(1,|s|) < 1e6 (otherwise both solves are checked by residual only)",
+        "histories: an in-place edit of the NOISE MAP of an existing Imaging object is not exercised (its cached "
+        "w_tilde legitimately depends on it; the library only guards the first noise value); noise / PSF changes "
+        "enter through a second Imaging or a DatasetInterface, as the library documents",
+        "large (constant-directed) cases are judged by the vectorised property statement alone (no model comparison)",
     ]
 
     # ------------------------------------------------------------------ generation
@@ -465,6 +608,425 @@ class C04(PropertyCheck):
             n = rng.randint(1, 6)
             mm = [[(F(rng.randint(-4, 4), 2) if rng.random() < 0.5 else F(0)) for _ in range(n)] for _ in range(n)]
             yield {"tag": "mirrored", "kind": "mirrored", "matrix": qmat(mm)}
+        # 4. histories on REAL reused objects (round-4 hardening): every type in every run, values seeded
+        yield from self._histories(tier, rng)
+
+    # ------------------------------------------------------------------ history stream: generation
+    def _hist_base(self, rng, kinds, *, float_only=False, unreg=False, kshapes=None):
+        """a small ordinary case (the world A of a history)."""
+        while True:
+            kshape = rng.choice(kshapes or [(1, 3), (3, 1), (3, 3), (3, 5), (5, 3)])
+            signed = rng.random() < 0.6
+            my, mx = kshape[0] // 2, kshape[1] // 2
+            ih, iw = rng.randint(2, 4), rng.randint(2, 5)
+            inner, _ = gen.random_mask(rng, ih, iw, margin=0, kind=rng.choice(
+                ["block", "blocks", "annulus", "cross", "diagonal", "bernoulli", "all"]))
+            h, w = ih + 2 * my + rng.randint(0, 1), iw + 2 * mx + rng.randint(0, 1)
+            oy, ox = rng.randint(my, h - ih - my), rng.randint(mx, w - iw - mx)
+            m = [[True] * w for _ in range(h)]
+            for y in range(ih):
+                for x in range(iw):
+                    m[y + oy][x + ox] = inner[y][x]
+            n = sum(1 for r in m for b in r if not b)
+            if n >= 3:
+                break
+        c = self._values(rng, m, kshape, signed)
+        if float_only:
+            # near-duplicate twins perturb values by 1e-6 relative: not representable in the narrow dtypes
+            c["dtypes"] = {k: "float" for k in c["dtypes"]}
+            c = {**c, **self._values_float(rng, m, kshape, signed, c)}
+        c.update(self._geometry(rng))
+        c["objs"] = self._objs(rng, kinds, n, c)
+        if unreg:       # the diagonal term only shows on objects without regularization
+            c["objs"][0]["reg"] = False
+        c["eps"] = self._eps(rng)
+        return c, n
+
+    def _values_float(self, rng, mask, kshape, signed, c):
+        """re-draw kernel / data / noise as dyadic float values (when `_values` had drawn integer-typed ones)."""
+        h, w = len(mask), len(mask[0])
+        kh, kw = kshape
+        kvals = [F(rng.randint(0, 8), 8) * (-1 if signed and rng.random() < 0.4 else 1) for _ in range(kh * kw)]
+        if all(v == 0 for v in kvals):
+            kvals[(kh // 2) * kw + kw // 2] = F(1)
+        if signed and all(v >= 0 for v in kvals):
+            kvals[0] = F(-1, 2)
+        return {"kernel": {"kh": kh, "kw": kw, "vals": qlist(kvals)},
+                "data": qlist([gen.dyadic(rng, -4, 4, 2) for _ in range(h * w)]),
+                "noise": qlist([rng.choice([F(1, 2), F(1), F(2), F(4), F(1, 4), F(3, 2)]) for _ in range(h * w)])}
+
+    @staticmethod
+    def _twin(vals, rel=1e-6, keep=None):
+        """the same reals perturbed by ~rel relative, a different factor per entry (inside np.allclose's default
+        tolerance, far outside the property's 1e-9); exact "p/q" strings of the resulting doubles."""
+        out = []
+        for i, v in enumerate(vals):
+            x = _f(v)
+            if keep is not None and keep[i]:
+                out.append(v)
+                continue
+            out.append(q(x * (1.0 + rel * (1 + i % 3)) if x != 0.0 else 1e-10 * (1 + i % 3)))
+        return out
+
+    def _histories(self, tier, rng):
+        reps = 1 if tier == "quick" else 10
+        obs = lambda world, **kw: {"op": "observe", "world": world, **kw}
+        WM, MW = ["w_tilde", "mapping"], ["mapping", "w_tilde"]
+        mapper_lists = [("R",), ("D",), ("R", "F"), ("F", "D"), ("R", "D"), ("F", "R", "F")]
+
+        def fresh_data(c, n_all, integral):
+            return qlist([F(rng.randint(-8, 8)) if integral else gen.dyadic(rng, -4, 4, 2) for _ in range(n_all)])
+
+        def integral(c, which):
+            return c["dtypes"][which] in ("int", "pyint")
+
+        def finish(c, htype, worlds, steps, k):
+            one = k % 3 == 1 and len({json_eps(w_.get("eps", c["eps"])) for w_ in worlds.values()}) == 1
+            return {**c, "kind": "history", "hist_type": htype, "worlds": worlds, "steps": steps,
+                    "preloads": "shared" if k % 2 == 0 else None, "settings": "one" if one else None,
+                    "tag": f"hist_{htype}"}
+
+        def json_eps(e):
+            return "None" if e is None else str(e)
+
+        for rep in range(reps):
+            # (i) read -> in-place edit through the library's own __setitem__ / the caller-owned buffer -> read
+            for k, kinds in enumerate([("R",), ("D", "F"), ("F", "R"), ("R", "R")]):
+                c, n = self._hist_base(rng, kinds)
+                big = [[rng.randrange(n), q(F(rng.randint(-8, 8)) if integral(c, "data") else gen.dyadic(rng, -4, 4, 2))]
+                       for _ in range(rng.randint(1, 3))]
+                steps = [obs("A", order=WM if k % 2 else MW), {"op": "set_data", "world": "A", "edits": big},
+                         obs("A", order=MW if k % 2 else WM)]
+                fi = [i for i, o in enumerate(c["objs"]) if o["kind"] == "func"]
+                if fi:
+                    mm = c["objs"][fi[0]]["matrix"]
+                    r, col = rng.randrange(len(mm)), rng.randrange(len(mm[0]))
+                    steps += [{"op": "set_func", "obj": fi[0], "edits": [[r, col, q(F(rng.randint(-4, 6)))]]},
+                              obs("A", order=WM)]
+                yield finish(c, "edit_in_place", {"A": {"mode": "base"}}, steps, k)
+            # (i/ii) tiny in-place edits (near-duplicates of the state already seen)
+            for k, kinds in enumerate([("R", "F"), ("D",)]):
+                c, n = self._hist_base(rng, kinds, float_only=True)
+                m = mask_from_json(c["mask"]).ravel()
+                slim = [v for v, mk in zip(c["data"], m) if not mk]
+                kk = rng.randrange(n)
+                steps = [obs("A", order=WM), {"op": "set_data", "world": "A",
+                                              "edits": [[kk, self._twin([slim[kk]])[0]]]}, obs("A", order=WM)]
+                fi = [i for i, o in enumerate(c["objs"]) if o["kind"] == "func"]
+                if fi:
+                    mm = c["objs"][fi[0]]["matrix"]
+                    r, col = rng.randrange(len(mm)), rng.randrange(len(mm[0]))
+                    steps += [{"op": "set_func", "obj": fi[0], "edits": [[r, col, self._twin([mm[r][col]])[0]]]},
+                              obs("A", order=MW)]
+                yield finish(c, "edit_tiny", {"A": {"mode": "base"}}, steps, k)
+            # (iv) DatasetInterface worlds sharing noise map / convolver / w_tilde / grids of the Imaging dataset
+            #      (the documented "data with something subtracted" use), different and near-duplicate data
+            for k, kinds in enumerate(mapper_lists[:4]):
+                c, n = self._hist_base(rng, kinds, float_only=(k % 2 == 1))
+                hw = c["mask"]["h"] * c["mask"]["w"]
+                worlds = {"A": {"mode": "base"},
+                          "B": {"mode": "interface", "data": fresh_data(c, hw, integral(c, "data"))}}
+                if k >= 2:      # through the library's own arithmetic: `dataset.data - foreground`
+                    worlds["B"] = {"mode": "interface", "minus": fresh_data(c, hw, integral(c, "data"))}
+                if k % 2 == 1:
+                    worlds["C"] = {"mode": "interface", "data": self._twin(c["data"])}
+                names = [["A", "B", "C", "A"], ["B", "A", "C", "B"], ["C", "B", "A"], ["B", "C", "A", "B"]][k]
+                steps = [obs(nm, order=WM if (j + k) % 2 else MW) for j, nm in enumerate(names) if nm in worlds]
+                yield finish(c, "interface_worlds", worlds, steps, k)
+            # (iv) a second Imaging world (other noise / data / PSF) sharing the Mask2D object, the linear
+            #      objects, the settings and Preloads objects — both orders; (ii) near-duplicate noise / PSF twins
+            for k, kinds in enumerate(mapper_lists):
+                c, n = self._hist_base(rng, kinds, float_only=True)
+                hw = c["mask"]["h"] * c["mask"]["w"]
+                kv = c["kernel"]["vals"]
+                other_noise = qlist([rng.choice([F(1, 2), F(1), F(2), F(4), F(1, 4), F(3, 2)]) for _ in range(hw)])
+                other_kernel = {**c["kernel"], "vals": qlist([F(rng.randint(-8, 8), 8) or F(1, 8) for _ in kv])}
+                variants = [
+                    {"B": {"mode": "dataset", "noise": other_noise, "data": fresh_data(c, hw, False)}},
+                    {"B": {"mode": "dataset", "noise": self._twin(c["noise"])}},
+                    {"B": {"mode": "dataset", "kernel": other_kernel}},
+                    {"B": {"mode": "dataset", "kernel": {**c["kernel"], "vals": self._twin(kv)}}},
+                    {"B": {"mode": "dataset", "noise": self._twin(c["noise"]), "data": self._twin(c["data"])},
+                     "C": {"mode": "dataset", "kernel": {**c["kernel"], "vals": self._twin(kv, rel=3e-6)}}},
+                    {"B": {"mode": "dataset", "noise": other_noise},
+                     "C": {"mode": "interface", "data": fresh_data(c, hw, False)}},
+                ][k]
+                worlds = {"A": {"mode": "base"}, **variants}
+                names = ["A", "B", "A"] if k % 2 == 0 else ["B", "A", "B"]
+                if "C" in worlds:
+                    names = names[:2] + ["C"] + names[2:]
+                steps = [obs(nm, order=WM if (j + k) % 2 else MW) for j, nm in enumerate(names)]
+                yield finish(c, "dataset_worlds", worlds, steps, k)
+            # derived objects: a deep copy of the (already used) dataset, edited in place; the original afterwards
+            for k, kinds in enumerate([("R",), ("F", "D"), ("R", "F")]):
+                c, n = self._hist_base(rng, kinds)
+                ed = lambda: [[rng.randrange(n), q(F(rng.randint(-8, 8)) if integral(c, "data")
+                                                     else gen.dyadic(rng, -4, 4, 2))] for _ in range(rng.randint(1, 2))]
+                steps = ([obs("A", order=WM)] if k != 1 else []) + \
+                        [{"op": "set_data", "world": "B", "edits": ed()}, obs("B", order=WM if k else MW),
+                         obs("A", order=MW), {"op": "set_data", "world": "A", "edits": ed()}, obs("B", order=MW),
+                         obs("A", order=WM)]
+                yield finish(c, "copied_dataset", {"A": {"mode": "base"}, "B": {"mode": "copy"}}, steps, k)
+            # (ii/iv) the diagonal value perturbed by 1e-5 relative (own settings object, everything else shared)
+            for k, kinds in enumerate([("R",), ("F", "D")]):
+                c, n = self._hist_base(rng, kinds, unreg=True)
+                e = rng.choice([F(1, 1024), F(1, 64), F(1e-3)])
+                c["eps"] = q(e)
+                worlds = {"A": {"mode": "base"}, "B": {"mode": "dataset", "eps": q(float(e) * (1 + 1e-5))}}
+                yield finish(c, "eps_twin", worlds, [obs("A", order=WM), obs("B", order=WM), obs("A", order=MW)], k)
+            # (iii) fault then reuse: the user's linear object raises in the middle of the first evaluation of an
+            #       inversion (k-th read of its mapping matrix); an inversion with a wrong-length function list
+            for k, kinds in enumerate([("R", "F"), ("F", "D"), ("F",), ("R", "F", "F")]):
+                c, n = self._hist_base(rng, kinds)
+                fi = [i for i, o in enumerate(c["objs"]) if o["kind"] == "func"][-1]
+                c["objs"][fi]["faulty"] = True
+                steps = [obs("A", order=WM if k % 2 else MW, fault={"obj": fi, "at": 1 + k % 3}),
+                         obs("A", order=MW if k % 2 else WM)]
+                if k >= 2:
+                    steps.insert(1, obs("A", order=WM, fault={"bad_rows": True}))
+                yield finish(c, "fault_then_reuse", {"A": {"mode": "base"}}, steps, k)
+            # (v) decoy reads: every other public derived quantity of the inversion / dataset / mappers FIRST,
+            #     the w-tilde formalism before the mapping formalism
+            for k, kinds in enumerate([("R",), ("D", "F"), ("R", "D")]):
+                c, n = self._hist_base(rng, kinds)
+                names = list(self.INV_DECOYS)
+                rng.shuffle(names)
+                steps = [obs("A", order=WM, decoys=names, ds_decoys=(k != 1)), obs("A", order=MW)]
+                yield finish(c, "decoy_reads", {"A": {"mode": "base"}}, steps, k)
+            # read-only caller arrays (kernel, data, noise map, function-list matrices)
+            for k, kinds in enumerate([("R", "F"), ("D",)]):
+                c, n = self._hist_base(rng, kinds)
+                c["container"] = "ndarray"
+                yield finish(c, "read_only_inputs", {"A": {"mode": "base", "readonly": True}},
+                             [obs("A", order=MW if k else WM)], k)
+            # (ii) the util functions named by the property called again with near-duplicate kernels / noise maps
+            for k, kinds in enumerate([("R",), ("D",)]):
+                c, n = self._hist_base(rng, kinds, float_only=True, kshapes=[(1, 3), (3, 1), (3, 3)])
+                worlds = {"A": {"mode": "base"},
+                          "B": {"mode": "dataset", "kernel": {**c["kernel"], "vals": self._twin(c["kernel"]["vals"])}},
+                          "C": {"mode": "dataset", "noise": self._twin(c["noise"]), "data": self._twin(c["data"])}}
+                yield finish(c, "utils_twins", worlds, [obs(nm, utils=True) for nm in ("A", "B", "C", "A")], k)
+
+    # ------------------------------------------------------------------ large stream: generation
+    # what is feasible in pure Python (numba absent) within a few seconds per case
+    # (measured: kernel strips of ~1000 pixels 3-5 s, 700 unmasked pixels ~2 s, 130 000 frame pixels ~3 s,
+    #  ~1000 parameters 1-2.5 s, 2000 parameters 7-11 s — the P^2 Python loops of the w-tilde curvature matrix)
+    LARGE_CAPS = {"kernel": 1100, "unmasked": 700, "frame": 150000, "sub_pixels": 45000,
+                  "mesh": 1100, "mesh_once": 2100, "delaunay": 1100, "func_params": 1100}
+
+    @staticmethod
+    def _targets(c):
+        """(label, size) on both sides of a constant: above first (a path gated `> c` / `>= c` runs there)."""
+        return [("c+1", c + 1), ("c+c//3+1", c + c // 3 + 1), ("2c+1", 2 * c + 1), ("c", c), ("c-1", c - 1)]
+
+    @staticmethod
+    def _factor(t, lo, odd=False, up=True, span=40):
+        """(a, b, t') with a*b = t' nearest to t in the given direction, lo <= a <= b (both odd when asked), the
+        most square NON-square factorisation when there is one; None if nothing within `span`."""
+        import math
+        for dt in range(span + 1):
+            tt = t + dt if up else t - dt
+            if tt < lo * lo:
+                if up:
+                    continue
+                return None
+            cands = [(a, tt // a) for a in range(lo, math.isqrt(tt) + 1)
+                     if tt % a == 0 and (not odd or (a % 2 == 1 and (tt // a) % 2 == 1))]
+            if cands:
+                ns = [p for p in cands if p[0] != p[1]]
+                return (*(ns[-1] if ns else cands[-1]), tt)
+        return None
+
+    @staticmethod
+    def _blob(n_target):
+        """compact mask pieces for exactly `n_target` unmasked pixels: a non-square block with an interior hole
+        and a ragged last row -> (ih, iw, holes) with ih*iw - len(holes) = n_target."""
+        iw = max(2, int(np.ceil(np.sqrt(n_target * 1.6))))
+        ih = -(-n_target // iw)
+        if n_target > 6 and ih * iw - n_target < 2:
+            ih += 1
+        excess = ih * iw - n_target
+        holes = []
+        if excess >= 1 and ih >= 3 and iw >= 3:          # one interior hole first
+            holes.append((ih // 2, iw // 2))
+        y, x = ih - 1, iw - 1
+        while len(holes) < excess:                         # ragged end of the last row(s)
+            if (y, x) not in holes:
+                holes.append((y, x))
+            x -= 1
+            if x < 0:
+                x, y = iw - 1, y - 1
+        return ih, iw, sorted(holes)
+
+    def _large_case(self, rng, *, kshape, n_unmasked, objs, sub=1, dim, target, hint, label, frame_hw=None):
+        """assemble one large case: the unmasked block sits in a corner of the frame, flush with the kernel
+        margin on two sides (the footprint touches the frame edge exactly), non-square, anisotropic off-origin
+        geometry, signed asymmetric kernel, varied noise.  None if the block does not fit `frame_hw`."""
+        kh, kw = kshape
+        my, mx = kh // 2, kw // 2
+        ih, iw, holes = self._blob(n_unmasked)
+        if frame_hw:
+            h, w = frame_hw
+            if h < ih + 2 * my or w < iw + 2 * mx:
+                h, w = w, h
+            if h < ih + 2 * my or w < iw + 2 * mx:
+                return None
+        else:
+            h, w = ih + 2 * my + rng.randint(0, 2), iw + 2 * mx + rng.randint(1, 3)
+        oy = my if rng.random() < 0.5 else h - my - ih
+        ox = mx if rng.random() < 0.5 else w - mx - iw
+        mj = {"h": h, "w": w, "rects": [[oy, ox, oy + ih, ox + iw]], "holes": [[oy + y, ox + x] for y, x in holes]}
+        seed = rng.randint(0, 10 ** 6)
+        ps = rng.choice([["1", "1/2"], ["3/4", "2"], ["1/2", "1/2"], ["2", "3/4"]])
+        org = rng.choice([["1/2", "-3/4"], ["0", "0"], ["-2", "5/4"]])
+        return {"large": True, "mask": mj, "kernel": {"kh": kh, "kw": kw, "gen": seed},
+                "data": {"gen": seed + 1}, "noise": {"gen": seed + 2}, "sub": sub,
+                "via": rng.choice(["direct", "apply_mask"]),
+                "dtypes": {k: "float" for k in ("kernel", "data", "noise", "func", "points")},
+                "container": "ndarray", "ctor": "Inversion", "pixel_scales": ps, "origin": org, "distort": None,
+                "objs": objs, "eps": rng.choice([None, q(F(1, 64)), q(F(1e-3))]),
+                "dim": dim, "target": target, "hint": hint, "tag": f"large_{dim}_{label}"}
+
+    @staticmethod
+    def _extent(case):
+        """bounding box of the unmasked pixel centres in scaled coordinates (for placing Delaunay vertices)."""
+        mj = case["mask"]
+        y0, x0, y1, x1 = mj["rects"][0]
+        psy, psx = (_f(v) for v in case["pixel_scales"])
+        oy, ox = (_f(v) for v in case["origin"])
+        ys = [-(r - (mj["h"] - 1) / 2.0) * psy + oy for r in (y0 - 0.5, y1 - 0.5)]
+        xs = [(c - (mj["w"] - 1) / 2.0) * psx + ox for c in (x0 - 0.5, x1 - 0.5)]
+        return [q(min(ys) - psy), q(max(ys) + psy), q(min(xs) - psx), q(max(xs) + psx)]
+
+    def _sub_sizes(self, total, rng):
+        """per-pixel sub-sizes (odd and even mixed) with sum of squares EXACTLY `total`; at most ~300 pixels."""
+        n0 = min(300, max(4, total // 8))
+        mean = max(1.0, np.sqrt(total / n0))
+        subs, rem = [], total
+        while rem > 0 and len(subs) < n0:
+            s = max(1, int(round(mean + rng.choice([-2, -1, 0, 1, 1, 2]))))
+            if s * s > rem:
+                break
+            subs.append(s)
+            rem -= s * s
+        while rem > 0:
+            s = int(np.floor(np.sqrt(rem)))
+            s = min(s, int(mean) + 3)
+            subs.append(s)
+            rem -= s * s
+        rng.shuffle(subs)
+        return subs
+
+    def generate_large(self, hints, rng):
+        caps = self.LARGE_CAPS
+        small_k = [(3, 3), (1, 3), (3, 1), (3, 5)]
+
+        def rect_obj(shape=None, sub=None):
+            o = {"kind": "rect", "shape": list(shape or (rng.randint(3, 4), rng.randint(3, 5))), "reg": True,
+                 "coeff": q(rng.choice([F(1), F(1, 2), F(2)]))}
+            if sub is not None:
+                o["sub"] = sub
+            return o
+
+        def func_obj(p):
+            return {"kind": "func", "params": p, "gen": rng.randint(0, 10 ** 6), "reg": False, "coeff": "1"}
+
+        for c in hints:
+            for label, t in self._targets(c):
+                up = not label.startswith("c-")
+                lab = f"{c}_{label}"
+                out = []
+                # 1. kernel pixels kh*kw (odd x odd): most-square non-square shape (either orientation) and a strip
+                if 9 <= t <= caps["kernel"]:
+                    f = self._factor(t, 3, odd=True, up=up)
+                    shapes = []
+                    if f and (label != "c" or f[2] == t):
+                        shapes.append((f[0], f[1]) if rng.random() < 0.5 else (f[1], f[0]))
+                    tt = t if t % 2 == 1 else (t + 1 if up else t - 1)
+                    if label != "c" or tt == t:
+                        shapes.append((1, tt) if rng.random() < 0.5 else (tt, 1))
+                    for ks in shapes:
+                        out.append(self._large_case(
+                            rng, kshape=ks, n_unmasked=rng.randint(5, 8),
+                            objs=[rect_obj(sub=rng.choice([1, 2]))] + ([func_obj(2)] if rng.random() < 0.5 else []),
+                            dim="kernel", target=ks[0] * ks[1], hint=c, label=lab))
+                # 2. unmasked pixels (exactly t)
+                if 4 <= t <= caps["unmasked"]:
+                    out.append(self._large_case(
+                        rng, kshape=rng.choice(small_k), n_unmasked=t,
+                        objs=[rect_obj(), func_obj(1)] if rng.random() < 0.5 else [rect_obj()],
+                        dim="unmasked", target=t, hint=c, label=lab))
+                # 3. frame pixels H*W (non-square), few unmasked pixels
+                if 40 <= t <= caps["frame"]:
+                    for lo, ks, nu in ((5, (1, 3), 6), (5, (3, 1), 6), (6, rng.choice(small_k), rng.randint(6, 12)),
+                                       (8, (3, 3), 9)):
+                        f = self._factor(t, lo, up=up)
+                        cs = None
+                        if f and (label != "c" or f[2] == t):
+                            cs = self._large_case(rng, kshape=ks, n_unmasked=nu, frame_hw=(f[0], f[1]),
+                                                  objs=[rect_obj(sub=2)], dim="frame", target=f[2], hint=c, label=lab)
+                        if cs is not None:
+                            out.append(cs)
+                            break
+                # 4. total sub-pixels (exactly t) with a per-pixel sub-size map
+                if 8 <= t <= caps["sub_pixels"]:
+                    subs = self._sub_sizes(t, rng)
+                    out.append(self._large_case(
+                        rng, kshape=rng.choice(small_k), n_unmasked=len(subs), objs=[rect_obj()], sub=subs,
+                        dim="sub_pixels", target=t, hint=c, label=lab))
+                # 5. mesh pixels: rectangular a x b (= t) and Delaunay with exactly t vertices
+                if 9 <= t <= caps["mesh"] or (9 <= t <= caps["mesh_once"] and label == "c+1"):
+                    f = self._factor(t, 3, up=up)
+                    if f and (label != "c" or f[2] == t):
+                        shape = (f[0], f[1]) if rng.random() < 0.5 else (f[1], f[0])
+                        out.append(self._large_case(
+                            rng, kshape=rng.choice(small_k), n_unmasked=rng.randint(8, 20),
+                            objs=[rect_obj(shape=shape, sub=2)], dim="mesh_rect", target=f[2], hint=c, label=lab))
+                if 4 <= t <= min(caps["delaunay"], caps["mesh"]) and label in ("c+1", "c", "c-1"):
+                    cs = self._large_case(rng, kshape=rng.choice(small_k), n_unmasked=rng.randint(8, 20), objs=[],
+                                          dim="mesh_delaunay", target=t, hint=c, label=lab)
+                    cs["objs"] = [{"kind": "delaunay", "points_gen": {"n": t, "seed": rng.randint(0, 999),
+                                                                      "extent": self._extent(cs)},
+                                   "reg": True, "coeff": "1", "sub": 2}]
+                    out.append(cs)
+                # 6. parameters of a function list (t columns) / total parameters of the inversion (= t)
+                if 2 <= t <= caps["func_params"] and label in ("c+1", "c+c//3+1", "c"):
+                    out.append(self._large_case(
+                        rng, kshape=rng.choice(small_k), n_unmasked=rng.randint(6, 12),
+                        objs=[func_obj(t), rect_obj(shape=(3, 3))], dim="func_params", target=t, hint=c, label=lab))
+                    if t > 12:
+                        out.append(self._large_case(
+                            rng, kshape=rng.choice(small_k), n_unmasked=rng.randint(6, 12),
+                            objs=[rect_obj(shape=(3, 3)), func_obj(t - 9)], dim="total_params", target=t, hint=c,
+                            label=lab))
+                for cs in out:
+                    if cs is not None:
+                        yield cs
+            # 7. the constant read as a SIDE length (a gate such as `shape[0] > c and shape[1] > c`): kernel
+            #    sides, frame sides, mesh-shape sides with both sides / one side above c, and at / below c
+            lab = f"{c}_side"
+            out = []
+            s_up = c + 1 if c % 2 == 0 else c + 2          # smallest odd side above c
+            s_at = c if c % 2 == 1 else c - 1              # largest odd side not above c
+            for ks in ((s_up, s_up + 2), (s_up + 2, s_up), (s_up, s_up), (s_at, s_up + 2), (s_up, s_at), (s_at, s_at)):
+                if ks[0] >= 1 and ks[0] * ks[1] <= caps["kernel"]:
+                    out.append(self._large_case(
+                        rng, kshape=ks, n_unmasked=rng.randint(5, 8), objs=[rect_obj(sub=rng.choice([1, 2]))],
+                        dim="kernel_side", target=ks[0] * ks[1], hint=c, label=lab))
+            for hw in ((c + 1, c + 2), (c + 1, 9), (9, c + 1), (c, c + 3), (c - 1, c + 1)):
+                if hw[0] >= 5 and hw[0] * hw[1] <= caps["frame"]:
+                    out.append(self._large_case(
+                        rng, kshape=(1, 3) if hw[0] < 7 else (3, 3), n_unmasked=6, frame_hw=hw,
+                        objs=[rect_obj(sub=2)], dim="frame_side", target=hw[0] * hw[1], hint=c, label=lab))
+            for shape in ((c + 1, 3), (3, c + 1), (c + 1, c + 2), (c, c + 1)):
+                if shape[0] * shape[1] <= caps["mesh"]:
+                    out.append(self._large_case(
+                        rng, kshape=rng.choice(small_k), n_unmasked=rng.randint(8, 20),
+                        objs=[rect_obj(shape=shape, sub=2)], dim="mesh_side", target=shape[0] * shape[1], hint=c,
+                        label=lab))
+            for cs in out:
+                if cs is not None:
+                    yield cs
 
     # ------------------------------------------------------------------ implementation
     def run_impl(self, case):
@@ -474,6 +1036,8 @@ class C04(PropertyCheck):
 
             out = inversion_util.curvature_matrix_mirrored_from(curvature_matrix=_mat(case["matrix"]))
             return {"mirrored": qmat(out)}
+        if case.get("kind") == "history":
+            return self._run_history(aa, case)
         try:
             mask, ds = build_dataset(aa, case)
         except Exception as e:
@@ -481,13 +1045,39 @@ class C04(PropertyCheck):
                 return {"err": _exc_kind(e)}
             raise
         objs = build_objects(aa, mask, ds, case)
+        if case.get("large"):
+            return self._run_large(aa, mask, ds, objs, case)
         if case.get("kind") == "utils":
             return self._run_utils(aa, mask, ds, objs[0], case)
+        return self._observe(aa, case, ds, objs)
+
+    # every other public derived quantity of an inversion (history axis "decoy reads": read BEFORE the
+    # observed quantities; none of them may change what the observed ones return)
+    INV_DECOYS = ["regularization_matrix", "curvature_reg_matrix", "mapping_matrix", "operated_mapping_matrix_list",
+                  "total_params", "no_regularization_index_list", "regularization_matrix_reduced",
+                  "curvature_reg_matrix_reduced", "reconstruction_reduced", "reconstruction_dict",
+                  "mapped_reconstructed_data_dict", "mapped_reconstructed_image_dict", "mapped_reconstructed_image",
+                  "data_subtracted_dict", "regularization_term", "log_det_curvature_reg_matrix_term",
+                  "log_det_regularization_matrix_term", "reconstruction_noise_map",
+                  "regularization_weights_mapper_dict", "linear_func_operated_mapping_matrix_dict",
+                  "data_linear_func_matrix_dict", "mapper_operated_mapping_matrix_dict", "_data_vector_mapper",
+                  "_curvature_matrix_mapper_diag", "w_tilde_data", "mapper_zero_pixel_list", "mapper_edge_pixel_list"]
+    MAPPER_DECOYS = ["unique_mappings", "mapping_matrix", "pix_sub_weights", "sub_slim_indexes_for_pix_index",
+                     "params", "neighbors", "edge_pixel_list", "pix_sizes_for_sub_slim_index"]
+    DATASET_DECOYS = ["w_tilde", "convolver", "signal_to_noise_map", "signal_to_noise_max", "grids"]
+
+    def _observe(self, aa, case, ds, objs, *, base_ds=None, order=("mapping", "w_tilde"), light=False,
+                 decoys=(), preloads=None, settings_for=None, fault=None):
+        """one observation of a dataset + object list: `aa.Inversion` with use_w_tilde off and on.
+        `ds` is what is handed to the inversion (an `Imaging` or a `DatasetInterface`), `base_ds` the `Imaging`
+        whose PSF it uses.  The keyword options are the history axes (order of the formalisms, decoy reads,
+        shared Preloads / settings objects, a fault injected into the first read of each inversion)."""
+        base_ds = base_ds if base_ds is not None else ds
         tables = []
         for o, spec in zip(objs, case["objs"]):
             if spec["kind"] == "func":
-                tables.append({"kind": "func", "params": len(spec["matrix"][0]), "matrix": spec["matrix"],
-                               "has_reg": bool(spec["reg"])})
+                mm = spec["matrix"] if "matrix" in spec else qmat(_func_matrix_np(spec, int(base_ds.mask.pixels_in_mask)))
+                tables.append({"kind": "func", "params": len(mm[0]), "matrix": mm, "has_reg": bool(spec["reg"])})
             else:
                 t = mapper_tables(o)
                 t["has_reg"] = bool(spec["reg"])
@@ -498,7 +1088,7 @@ class C04(PropertyCheck):
             eps = float(conf.instance["general"]["inversion"]["no_regularization_add_to_curvature_diag_value"])
         else:
             eps_setting = eps = _f(case["eps"])     # includes the set-but-falsy 0.0 and the explicit default
-        kern = np.asarray(ds.psf.native)
+        kern = np.asarray(base_ds.psf.native)
         if not np.all(np.isfinite(kern)):
             raise Skip("PSF normalisation of a zero-sum kernel")
         obs = {"_tables": tables, "_eps": q(eps),
@@ -517,28 +1107,40 @@ class C04(PropertyCheck):
                 return {"reconstruction": _exc_kind(e)}
 
         ctor = case.get("ctor", "Inversion")
+        kw = {} if preloads is None else {"preloads": preloads}
 
         def make(flag, settings):
             """the same functionality through the public entry points named by the property"""
             if ctor == "factory":
                 from autoarray.inversion.inversion.factory import inversion_imaging_from
-                return inversion_imaging_from(dataset=ds, linear_obj_list=objs, settings=settings)
+                return inversion_imaging_from(dataset=ds, linear_obj_list=objs, settings=settings, **kw)
             if ctor == "interface":
                 di = aa.DatasetInterface(data=ds.data, noise_map=ds.noise_map, convolver=ds.convolver,
                                          w_tilde=ds.w_tilde, grids=ds.grids)
-                return aa.Inversion(dataset=di, linear_obj_list=objs, settings=settings)
+                return aa.Inversion(dataset=di, linear_obj_list=objs, settings=settings, **kw)
             if ctor == "class":
                 from autoarray.inversion.inversion.imaging.mapping import InversionImagingMapping
                 from autoarray.inversion.inversion.imaging.w_tilde import InversionImagingWTilde
                 if flag and not all(sp["kind"] == "func" for sp in case["objs"]):
                     return InversionImagingWTilde(dataset=ds, w_tilde=ds.w_tilde, linear_obj_list=objs,
-                                                  settings=settings)
-                return InversionImagingMapping(dataset=ds, linear_obj_list=objs, settings=settings)
-            return aa.Inversion(dataset=ds, linear_obj_list=objs, settings=settings)
+                                                  settings=settings, **kw)
+                return InversionImagingMapping(dataset=ds, linear_obj_list=objs, settings=settings, **kw)
+            return aa.Inversion(dataset=ds, linear_obj_list=objs, settings=settings, **kw)
 
-        for flag, key in ((False, "mapping"), (True, "w_tilde")):
-            settings = aa.SettingsInversion(use_w_tilde=flag, use_positive_only_solver=False,
-                                            no_regularization_add_to_curvature_diag_value=eps_setting)
+        def read_decoys(inv):
+            for name in decoys:
+                try:
+                    getattr(inv, name)
+                except Exception:
+                    pass
+
+        for key in order:
+            flag = key == "w_tilde"
+            if settings_for is not None:
+                settings = settings_for(flag, eps_setting)       # one settings object shared by a whole history
+            else:
+                settings = aa.SettingsInversion(use_w_tilde=flag, use_positive_only_solver=False,
+                                                no_regularization_add_to_curvature_diag_value=eps_setting)
             # Two access histories per formalism (the quantities are cached properties and the solve adds
             # the regularization matrix to the curvature matrix, in place on some paths):
             #   first instance : matrices, solve, matrices AGAIN ("after")
@@ -547,22 +1149,207 @@ class C04(PropertyCheck):
                 inv = make(flag, settings)
                 o = {"formalism": {"InversionImagingMapping": "mapping",
                                    "InversionImagingWTilde": "w_tilde"}.get(type(inv).__name__, type(inv).__name__)}
+                if fault is not None:
+                    # the user's linear object fails in the middle of the first evaluation; the SAME inversion
+                    # (and the same dataset / objects / settings) is then used again
+                    fobj = objs[fault["obj"]]
+                    fobj.arm(fault["at"])
+                    try:
+                        matrices(inv)
+                        solve(inv)
+                    except RuntimeError as e:
+                        if "user function failed" not in str(e):
+                            raise
+                    finally:
+                        fobj.disarm()
+                read_decoys(inv)
                 o.update(matrices(inv))
             except Exception as e:
-                if "Qhull" in type(e).__name__ or "qhull" in str(e).lower():
+                if _degenerate(e):
                     raise Skip("degenerate Delaunay point set")
                 obs[key] = {"err": _exc_kind(e), "msg": str(e)[:200]}
                 continue
             if "_H" not in obs:
                 obs["_H"] = qmat(np.asarray(inv.regularization_matrix))
             o.update(solve(inv))
-            o["after"] = matrices(inv)
-            inv2 = make(flag, settings)
-            sf = solve(inv2)
-            sf.update(matrices(inv2))
-            o["solve_first"] = sf
+            if not light:
+                o["after"] = matrices(inv)
+                inv2 = make(flag, settings)
+                sf = solve(inv2)
+                sf.update(matrices(inv2))
+                o["solve_first"] = sf
             obs[key] = o
         return obs
+
+    # ------------------------------------------------------------------ large stream (constant-directed)
+    @staticmethod
+    def _psf_matrix(m, K):
+        """P[d, a] = K[d - a + half] on the unmasked pixels of `m` (vectorised)."""
+        ys, xs = np.nonzero(~m)
+        kh, kw = K.shape
+        I = ys[:, None] - ys[None, :] + kh // 2
+        J = xs[:, None] - xs[None, :] + kw // 2
+        ok = (I >= 0) & (I < kh) & (J >= 0) & (J < kw)
+        return np.where(ok, K[np.clip(I, 0, kh - 1), np.clip(J, 0, kw - 1)], 0.0)
+
+    @staticmethod
+    def _mapper_matrix(obj, n):
+        """mapping matrix from the meaning of the mapper's tables (vectorised); None + reason when the
+        over-sampler contract (every data pixel owns sub_size^2 consecutive sub-pixels) is broken."""
+        idx = np.asarray(obj.pix_indexes_for_sub_slim_index).astype(np.int64)
+        sizes = np.asarray(obj.pix_sizes_for_sub_slim_index).astype(np.int64)
+        wts = np.asarray(obj.pix_weights_for_sub_slim_index, dtype=float)
+        slim = np.asarray(obj.slim_index_for_sub_slim_index).astype(np.int64)
+        frac = np.asarray(obj.over_sampler.sub_fraction, dtype=float)
+        ss = np.asarray(obj.over_sampler.sub_size).astype(np.int64)
+        want = np.repeat(np.arange(n, dtype=np.int64), ss ** 2)
+        if slim.shape != want.shape or not np.array_equal(slim, want) or idx.shape[0] != want.shape[0]:
+            return None, ("modelled-not-verified contract broken: slim_index_for_sub_slim_index is not "
+                          "every data pixel repeated sub_size^2 times in order")
+        M = np.zeros((n, int(obj.params)))
+        for c in range(idx.shape[1]):
+            sel = sizes > c
+            np.add.at(M, (slim[sel], idx[sel, c]), frac[slim[sel]] * wts[sel, c])
+        return M, None
+
+    def _run_large(self, aa, mask, ds, objs, case):
+        """large (constant-directed) cases: no model comparison, no big literal arrays in the observation.
+        The property is evaluated at once, vectorised, on the implementation's numpy outputs; the observation
+        keeps the verdict and a digest."""
+        m = _mask_np(case["mask"])
+        n = int((~m).sum())
+        kern = np.asarray(ds.psf.native, dtype=float)
+        if not np.all(np.isfinite(kern)):
+            raise Skip("PSF normalisation of a zero-sum kernel")
+        if case.get("via", "apply_mask") == "direct" and not np.array_equal(kern, _kernel_np(case["kernel"])):
+            return {"large": True, "verdict": [False, "dataset PSF differs from the PSF handed to "
+                                                      "Imaging(use_normalized_psf=False)"]}
+        h, w = m.shape
+        data = _native_vals(case["data"], "data", h, w)[~m]
+        noise = _native_vals(case["noise"], "noise", h, w)[~m]
+        P = self._psf_matrix(m, kern)
+        Ms, noreg, off = [], [], 0
+        for o, spec in zip(objs, case["objs"]):
+            if spec["kind"] == "func":
+                M = _func_matrix_np(spec, n)
+            else:
+                try:
+                    M, why = self._mapper_matrix(o, n)
+                except Exception as e:
+                    if _degenerate(e):
+                        raise Skip("degenerate Delaunay point set")
+                    raise
+                if M is None:
+                    return {"large": True, "verdict": [False, why]}
+            if not spec["reg"]:
+                noreg += list(range(off, off + M.shape[1]))
+            off += M.shape[1]
+            Ms.append(M)
+        B = np.hstack([P @ M for M in Ms])
+        Dx = B.T @ (data / noise ** 2)
+        Bs = B / noise[:, None]
+        Fx = Bs.T @ Bs
+        if case["eps"] is None:
+            from autoconf import conf
+            eps_setting = None
+            eps = float(conf.instance["general"]["inversion"]["no_regularization_add_to_curvature_diag_value"])
+        else:
+            eps_setting = eps = _f(case["eps"])
+        Fx[noreg, noreg] += eps
+        all_funcs = all(sp["kind"] == "func" for sp in case["objs"])
+
+        def close(a, b, what):
+            a, b = np.asarray(a, float), np.asarray(b, float)
+            if a.shape != b.shape:
+                return f"{what}: shape {a.shape} != {b.shape}"
+            tol = 1e-9 * max(1.0, float(np.max(np.abs(b))) if b.size else 1.0)
+            if a.size:
+                dd = np.abs(a - b)
+                if not np.all(np.isfinite(a)) or float(dd.max()) > tol:
+                    i = np.unravel_index(int(np.nanargmax(np.where(np.isfinite(dd), dd, np.inf))), a.shape)
+                    return f"{what}: max |Δ| = {float(dd[i]):.3e} at {tuple(int(v) for v in i)}"
+            return None
+
+        digest = {"n": n, "params": int(B.shape[1]), "kernel": [int(kern.shape[0]), int(kern.shape[1])],
+                  "frame": [int(h), int(w)], "sub_pixels": [int(np.sum(np.asarray(o.over_sampler.sub_size) ** 2))
+                                                            for o, sp in zip(objs, case["objs"]) if sp["kind"] != "func"]}
+        verdict = None
+        recs = {}
+        for key in ("mapping", "w_tilde"):
+            flag = key == "w_tilde"
+            settings = aa.SettingsInversion(use_w_tilde=flag, use_positive_only_solver=False,
+                                            no_regularization_add_to_curvature_diag_value=eps_setting)
+            try:
+                inv = aa.Inversion(dataset=ds, linear_obj_list=objs, settings=settings)
+                form = {"InversionImagingMapping": "mapping", "InversionImagingWTilde": "w_tilde"}.get(
+                    type(inv).__name__, type(inv).__name__)
+                want = "mapping" if (key == "mapping" or all_funcs) else "w_tilde"
+                if form != want:
+                    verdict = verdict or [False, f"factory chose {form} for use_w_tilde={flag}"]
+                    continue
+                for label in ("first read", "read again after the solve"):
+                    Fm = np.array(inv.curvature_matrix, copy=True)
+                    for what, got, exp in (
+                            ("operated_mapping_matrix != P·M (object order)", np.asarray(inv.operated_mapping_matrix), B),
+                            ("data_vector != B^T N^-1 d", np.asarray(inv.data_vector), Dx),
+                            ("curvature_matrix != B^T N^-1 B + eps on unregularized diag", Fm, Fx),
+                            ("curvature_matrix not symmetric", Fm, Fm.T)):
+                        d = close(got, exp, f"{key} ({label}): {what}")
+                        if d and verdict is None:
+                            verdict = [False, d]
+                    if label == "first read":
+                        digest[key] = {"data_vector_head": [float(v) for v in np.asarray(inv.data_vector)[:4]],
+                                       "curvature_trace": float(np.trace(Fm))}
+                        try:
+                            s = np.array(inv.reconstruction, copy=True)
+                        except Exception as e:
+                            if type(e).__name__ != "InversionException":
+                                raise
+                            s = None
+                        if s is not None:
+                            H = np.asarray(inv.regularization_matrix, dtype=float)
+                            A = Fx + H
+                            resid = A @ s - Dx
+                            scale = float(np.abs(A).sum(axis=1).max() * max(1.0, np.abs(s).max()) + np.abs(Dx).max())
+                            if float(np.abs(resid).max()) > 1e-7 * scale and verdict is None:
+                                verdict = [False, f"{key}: reconstruction does not solve (F+H)s = D "
+                                                  f"(residual {float(np.abs(resid).max()):.3e})"]
+                            d = close(np.asarray(inv.mapped_reconstructed_data), B @ s,
+                                      f"{key}: mapped_reconstructed_data != B s")
+                            if d and verdict is None:
+                                verdict = [False, d]
+                            recs[key] = s
+            except Skip:
+                raise
+            except Exception as e:
+                if _degenerate(e):
+                    raise Skip("degenerate Delaunay point set")
+                verdict = verdict or [False, f"{key}: implementation raised {type(e).__name__}: {str(e)[:200]}"]
+        # the util functions named by the property, on the same dataset (sizes permitting: n^2 * kernel Python steps)
+        if verdict is None and n * n * kern.size <= 600000:
+            from autoarray.inversion.inversion.imaging import inversion_imaging_util as iu
+            nfs = mask.derive_indexes.native_for_slim
+            img_n, noise_n = np.array(ds.data.native), np.array(ds.noise_map.native)
+            wtd = iu.w_tilde_data_imaging_from(image_native=img_n, noise_map_native=noise_n,
+                                               kernel_native=kern, native_index_for_slim_index=nfs)
+            d = close(wtd, P.T @ (data / noise ** 2), "w_tilde_data_imaging_from != P^T N^-1 d")
+            if d is None:
+                W = P.T @ (P / (noise ** 2)[:, None])
+                wfull = iu.w_tilde_curvature_imaging_from(noise_map_native=noise_n, kernel_native=kern,
+                                                          native_index_for_slim_index=nfs)
+                d = close(wfull, W, "w_tilde_curvature_imaging_from != P^T N^-1 P")
+            if d is None:
+                pre, idxs, lens = iu.w_tilde_curvature_preload_imaging_from(
+                    noise_map_native=noise_n, kernel_native=kern, native_index_for_slim_index=nfs)
+                lens = np.asarray(lens).astype(np.int64)
+                rows = np.repeat(np.arange(n), lens)
+                upper = np.zeros((n, n))
+                np.add.at(upper, (rows, np.asarray(idxs).astype(np.int64)[:rows.size]), np.asarray(pre)[:rows.size])
+                d = close(upper, np.triu(W, 1) + np.diag(np.diag(W)) / 2.0,
+                          "preload is not the upper triangle of W with the diagonal halved")
+            if d:
+                verdict = [False, d]
+        return {"large": True, "verdict": verdict or [True, ""], "digest": digest}
 
     def _run_utils(self, aa, mask, ds, mapper, case):
         """the util functions the property names, observed in order-insensitive dense form."""
@@ -630,8 +1417,242 @@ class C04(PropertyCheck):
             "data_vector": qlist(dv), "curvature": qmat(cur),
         }
 
-    # ------------------------------------------------------------------ model
+    # ------------------------------------------------------------------ histories on reused objects
+    _HIST_KEYS = ("kind", "worlds", "steps", "hist_type", "preloads", "settings", "tag")
+
+    def _plan(self, case):
+        """{step index: effective single-world case} for every observe step of a history: what a FRESHLY built
+        dataset / object list in that state is — a function of the case alone (never of the implementation).
+        `plan[("build", name)]` is the effective case of a world at the step where it comes into existence (its
+        first mention; worlds derived from world A — `interface`, `copy` — bring A into existence first);
+        `wc["_objs_full"]` the whole object list (a util-level step observes only its first mapper)."""
+        import copy as _copy
+        base = {k: v for k, v in case.items() if k not in self._HIST_KEYS}
+        m = mask_from_json(case["mask"]).ravel()
+        slim_pos = [i for i, mk in enumerate(m) if not mk]
+        worlds = case["worlds"]
+        state, plan = {}, {}
+        objs = _copy.deepcopy(base["objs"])
+
+        def effective(name):
+            ws = state[name]
+            wc = {**base, "data": list(ws["data"]), "noise": list(ws["noise"]),
+                  "kernel": _copy.deepcopy(ws["kernel"]), "eps": ws["eps"], "objs": _copy.deepcopy(objs),
+                  "_light": True}
+            if ws["readonly"]:
+                wc["readonly"] = True
+            return wc
+
+        def world_state(name):
+            if name not in state:
+                spec = worlds[name]
+                mode = spec.get("mode", "base")
+                parent = world_state("A") if mode in ("interface", "copy") else None
+                if mode == "copy":
+                    data = list(parent["data"])
+                elif "minus" in spec:      # library arithmetic: A's data minus a foreground
+                    data = [q(_f(a) - _f(f)) for a, f in zip(parent["data"], spec["minus"])]
+                else:
+                    data = list(spec.get("data", base["data"]))
+                state[name] = {
+                    "data": data,
+                    "noise": list(parent["noise"] if parent else spec.get("noise", base["noise"])),
+                    "kernel": _copy.deepcopy(parent["kernel"] if parent else spec.get("kernel", base["kernel"])),
+                    "eps": spec["eps"] if "eps" in spec else (parent["eps"] if parent else base["eps"]),
+                    "readonly": bool(spec.get("readonly"))}
+                plan[("build", name)] = effective(name)
+            return state[name]
+
+        for i, st in enumerate(case["steps"]):
+            if st["op"] == "set_data":
+                ws = world_state(st["world"])
+                for k, v in st["edits"]:
+                    ws["data"][slim_pos[k]] = v
+            elif st["op"] == "set_func":
+                for r, c, v in st["edits"]:
+                    objs[st["obj"]]["matrix"][r][c] = v
+            elif st["op"] == "observe":
+                world_state(st["world"])
+                wc = effective(st["world"])
+                wc["_objs_full"] = wc["objs"]
+                if st.get("utils"):
+                    wc["kind"] = "utils"
+                    wc["objs"] = [[o for o in wc["objs"] if o["kind"] != "func"][0]]
+                plan[i] = wc
+        return plan
+
+    def _run_history(self, aa, case):
+        import copy as _copy
+        plan = self._plan(case)
+        h, w = case["mask"]["h"], case["mask"]["w"]
+        built = {}      # world name -> (what is handed to the inversion, the Imaging whose PSF / tables it uses)
+        shared = {"mask": None, "objs": None}
+        preloads = aa.Preloads() if case.get("preloads") == "shared" else None
+        pkw = {} if preloads is None else {"preloads": preloads}
+        settings_cache = {}
+        one_settings = case.get("settings") == "one"
+
+        def settings_for(flag, eps_setting):
+            # ONE settings object per (formalism, value) for the whole history — or, with "settings": "one", a
+            # single object whose public `use_w_tilde` attribute is flipped in place between inversions
+            key = ("one", eps_setting) if one_settings else (flag, eps_setting)
+            if key not in settings_cache:
+                settings_cache[key] = aa.SettingsInversion(
+                    use_w_tilde=flag, use_positive_only_solver=False,
+                    no_regularization_add_to_curvature_diag_value=eps_setting)
+            settings_cache[key].use_w_tilde = flag
+            return settings_cache[key]
+
+        def ensure(name):
+            if name in built:
+                return
+            wc = plan[("build", name)]
+            spec = case["worlds"][name]
+            mode = spec.get("mode", "base")
+            if mode in ("interface", "copy"):
+                ensure("A")
+            if mode == "interface":
+                par = built["A"][1]
+                if "minus" in spec:     # the documented use: the dataset's data with something subtracted
+                    data = par.data - aa.Array2D(values=_arr(spec["minus"]).reshape(h, w), mask=shared["mask"])
+                else:
+                    data = aa.Array2D(values=_readonly(_arr(wc["data"]).reshape(h, w), wc), mask=shared["mask"])
+                built[name] = (aa.DatasetInterface(data=data, noise_map=par.noise_map, convolver=par.convolver,
+                                                   w_tilde=par.w_tilde, grids=par.grids), par)
+            elif mode == "copy":        # a derived object: deep copy of the (possibly already used) dataset
+                ds = _copy.deepcopy(built["A"][0])
+                built[name] = (ds, ds)
+            else:
+                mask, ds = build_dataset(aa, wc, mask=shared["mask"])
+                shared["mask"] = mask      # ONE Mask2D object for every world of the history
+                built[name] = (ds, ds)
+
+        def decoy(objx, names):
+            for nm in names:
+                try:
+                    getattr(objx, nm)
+                except Exception as e:
+                    if _degenerate(e):
+                        raise Skip("degenerate Delaunay point set")
+
+        steps_out = []
+        for i, st in enumerate(case["steps"]):
+            if "world" in st:
+                ensure(st["world"])
+            if st["op"] == "set_data":
+                arr = built[st["world"]][0].data
+                for k, v in st["edits"]:
+                    arr[k] = _f(v)                     # the library's own `__setitem__`
+                steps_out.append({"op": "set_data"})
+                continue
+            if st["op"] == "set_func":
+                if shared["objs"] is not None:      # (objects not built yet simply start from the edited values)
+                    mm = shared["objs"][st["obj"]].mapping_matrix       # the caller-owned numpy buffer
+                    for r, c, v in st["edits"]:
+                        mm[r, c] = _f(v)
+                steps_out.append({"op": "set_func"})
+                continue
+            wc = plan[i]
+            ds, img = built[st["world"]]
+            if shared["objs"] is None:      # ONE list of linear objects for every world (they depend on the mask only)
+                shared["objs"] = build_objects(aa, shared["mask"], img, {**wc, "objs": wc["_objs_full"]})
+            objs = shared["objs"]
+            if st.get("ds_decoys"):
+                decoy(img, self.DATASET_DECOYS)
+                for o, sp in zip(objs, wc["_objs_full"]):
+                    if sp["kind"] != "func":
+                        decoy(o, self.MAPPER_DECOYS)
+            if st.get("utils"):
+                mp = [o for o, sp in zip(objs, wc["_objs_full"]) if sp["kind"] != "func"][0]
+                so = self._run_utils(aa, shared["mask"], img, mp, wc)
+                so["_world"] = st["world"]
+                steps_out.append(so)
+                continue
+            fault = st.get("fault")
+            if fault and fault.get("bad_rows"):
+                # an inversion that fails in the middle (function list with one row too many) on the same
+                # dataset / objects / settings / preloads; whatever it raises is not judged
+                from autoarray.inversion.mock.mock_linear_obj_func_list import MockLinearObjFuncList
+                n = int(shared["mask"].pixels_in_mask)
+                bad = MockLinearObjFuncList(parameters=1, grid=img.grids.uniform, mapping_matrix=np.ones((n + 1, 1)))
+                for flag in (True, False):
+                    try:
+                        binv = aa.Inversion(dataset=ds, linear_obj_list=list(objs) + [bad],
+                                            settings=settings_for(flag, None if wc["eps"] is None else _f(wc["eps"])),
+                                            **pkw)
+                        binv.data_vector
+                        binv.curvature_matrix
+                        binv.reconstruction
+                    except Exception as e:
+                        if _degenerate(e):
+                            raise Skip("degenerate Delaunay point set")
+                fault = None
+            so = self._observe(aa, wc, ds, objs, base_ds=img, order=tuple(st.get("order", ("mapping", "w_tilde"))),
+                               light=True, decoys=tuple(st.get("decoys") or ()), preloads=preloads,
+                               settings_for=settings_for, fault=fault)
+            so["_world"] = st["world"]
+            steps_out.append(so)
+        return {"steps": steps_out}
+
+    def _observe_steps(self, case):
+        return [i for i, st in enumerate(case["steps"]) if st["op"] == "observe"]
+
+    # ------------------------------------------------------------------ dispatch: ordinary / large / history
     def model_requests(self, case, impl_obs):
+        if case.get("large"):
+            return []            # judged by the (vectorised) property statement alone
+        if case.get("kind") == "history":
+            if "steps" not in impl_obs:
+                return []
+            plan = self._plan(case)
+            reqs = []
+            for i in self._observe_steps(case):
+                reqs += self._model_requests_one(plan[i], impl_obs["steps"][i])
+            return reqs
+        return self._model_requests_one(case, impl_obs)
+
+    def model_obs(self, case, responses):
+        if case.get("kind") == "history":
+            plan = self._plan(case)
+            out, k = {}, 0
+            for i in self._observe_steps(case):
+                cnt = 1 if plan[i].get("kind") == "utils" else 2
+                out[i] = self._model_obs_one(plan[i], responses[k:k + cnt])
+                k += cnt
+            return out
+        return self._model_obs_one(case, responses)
+
+    def compare(self, case, impl_obs, model_obs, cmp):
+        if case.get("kind") == "history":
+            plan = self._plan(case)
+            for i in self._observe_steps(case):
+                d = self._compare_one(plan[i], impl_obs["steps"][i], model_obs[i], cmp, root=f"$.steps[{i}]")
+                if d:
+                    return d
+            return None
+        return self._compare_one(case, impl_obs, model_obs, cmp)
+
+    def oracle(self, case, obs):
+        if case.get("large"):
+            if "verdict" not in obs:
+                return False, f"implementation raised {obs}"
+            return bool(obs["verdict"][0]), obs["verdict"][1]
+        if case.get("kind") == "history":
+            if "steps" not in obs:
+                return False, f"implementation raised {obs}"
+            plan = self._plan(case)
+            for i in self._observe_steps(case):
+                st = case["steps"][i]
+                ok, detail = self._oracle_one(plan[i], obs["steps"][i])
+                if not ok:
+                    before = [s["op"] + (":" + s["world"] if "world" in s else "") for s in case["steps"][:i]]
+                    return False, (f"history step {i} (world {st['world']}, after {before or 'nothing'}; expected = "
+                                   f"a freshly built dataset / object list in this state): {detail}")
+            return True, ""
+        return self._oracle_one(case, obs)
+
+    # ------------------------------------------------------------------ model
+    def _model_requests_one(self, case, impl_obs):
         if case.get("kind") == "mirrored":
             return [{"op": "c04.mirrored", "matrix": case["matrix"]}]
         if "err" in impl_obs:
@@ -651,7 +1672,7 @@ class C04(PropertyCheck):
             base["reg_matrix"] = impl_obs["_H"]
         return [{**base, "use_w_tilde": False}, {**base, "use_w_tilde": True}]
 
-    def model_obs(self, case, responses):
+    def _model_obs_one(self, case, responses):
         if case.get("kind") == "mirrored":
             r = responses[0]
             return {"mirrored": r["ok"]} if "ok" in r else {"err": r.get("err")}
@@ -685,6 +1706,9 @@ class C04(PropertyCheck):
                 out[key] = {"err": r.get("err")}
                 continue
             o = dict(r["ok"])
+            if case.get("_light"):
+                out[key] = o
+                continue
             mats = {k: o[k] for k in ("operated_mapping_matrix", "data_vector", "curvature_matrix")}
             o["after"] = dict(mats)             # reads are history independent in the model
             sf = dict(mats)
@@ -713,25 +1737,26 @@ class C04(PropertyCheck):
             c *= max(1.0, float(np.max(np.abs(_arr(rec)))))
         return c
 
-    def compare(self, case, impl_obs, model_obs, cmp):
+    def _compare_one(self, case, impl_obs, model_obs, cmp, root="$"):
         if case.get("kind") == "utils" and "err" not in impl_obs:
-            return cmp.diff({k: v for k, v in impl_obs.items() if not k.startswith("_")}, model_obs)
+            return cmp.diff({k: v for k, v in impl_obs.items() if not k.startswith("_")}, model_obs, root)
         if case.get("kind") == "mirrored" or "err" in impl_obs:
-            return cmp.diff({k: v for k, v in impl_obs.items() if k != "msg"}, model_obs)
+            return cmp.diff({k: v for k, v in impl_obs.items() if k != "msg"}, model_obs, root)
+        subs = (None,) if case.get("_light") else (None, "after", "solve_first")
         for key in ("mapping", "w_tilde"):
             a, b = dict(impl_obs[key]), dict(model_obs[key])
             a.pop("msg", None)
             if "err" in a or "err" in b:
-                d = cmp.diff(a, b, f"$.{key}")
+                d = cmp.diff(a, b, f"{root}.{key}")
                 if d:
                     return d
                 continue
             # the solve: compare only when numpy's answer is determined to 1e-9 by the data
             well = self._cond(impl_obs, key) < 1e6
-            for sub in (None, "after", "solve_first"):
+            for sub in subs:
                 ra = dict(a if sub is None else a[sub])
                 rb = dict(b if sub is None else b[sub])
-                path = f"$.{key}" + ("" if sub is None else f".{sub}")
+                path = f"{root}.{key}" + ("" if sub is None else f".{sub}")
                 for k in ("after", "solve_first"):
                     ra.pop(k, None)
                     rb.pop(k, None)
@@ -752,7 +1777,7 @@ class C04(PropertyCheck):
         return None
 
     # ------------------------------------------------------------------ oracle (independent of the model)
-    def oracle(self, case, obs):
+    def _oracle_one(self, case, obs):
         if case.get("kind") == "mirrored":
             C = _mat(case["matrix"])
             n = C.shape[0]
@@ -858,6 +1883,8 @@ class C04(PropertyCheck):
                 return False, f"factory chose {o['formalism']} for use_w_tilde={key == 'w_tilde'}"
             for sub, label in ((None, "first read"), ("after", "read again after the solve"),
                                ("solve_first", "fresh inversion, read after the solve")):
+                if sub is not None and case.get("_light"):
+                    continue        # history steps observe one inversion per formalism
                 rd = o if sub is None else o[sub]
                 Fm = _mat(rd["curvature_matrix"])
                 for what, got, exp in (("operated_mapping_matrix != P·M (object order)", _mat(rd["operated_mapping_matrix"]), B),
@@ -890,6 +1917,8 @@ class C04(PropertyCheck):
     def nontrivial(self, case, obs):
         if case.get("kind") == "mirrored":
             return len(case["matrix"]) > 1
+        if case.get("large"):
+            return isinstance(obs, dict) and obs.get("digest", {}).get("n", 0) >= 2
         bits = case["mask"]["bits"]
         nz = sum(1 for v in case["kernel"]["vals"] if Fraction(v) != 0)
         return bits.count("0") >= 2 and "1" in bits and (nz > 1 or len(case["objs"]) > 1)
@@ -899,6 +1928,34 @@ class C04(PropertyCheck):
 
     def shrink(self, case):
         if case.get("kind") == "mirrored":
+            return
+        if case.get("kind") == "history":
+            # fewer steps (keeping an observation at the end), then fewer options on the remaining ones
+            steps = case["steps"]
+            for i in range(len(steps) - 1):
+                rest = steps[:i] + steps[i + 1:]
+                if any(st["op"] == "observe" for st in rest):
+                    yield {**case, "steps": rest}
+            for i, st in enumerate(steps):
+                for opt in ("decoys", "ds_decoys", "fault"):
+                    if st.get(opt):
+                        yield {**case, "steps": steps[:i] + [{k: v for k, v in st.items() if k != opt}] + steps[i + 1:]}
+            if case.get("preloads"):
+                yield {**case, "preloads": None}
+            return
+        if case.get("large"):
+            # cheap moves only (every evaluation of a large case costs seconds)
+            if len(case["objs"]) > 1:
+                for i in range(len(case["objs"])):
+                    rest = case["objs"][:i] + case["objs"][i + 1:]
+                    if any(o["kind"] != "func" for o in rest) or case["dim"] in ("func_params", "total_params"):
+                        yield {**case, "objs": rest}
+            if case["noise"].get("const") is None:
+                yield {**case, "noise": {**case["noise"], "const": "1"}}
+            if case.get("pixel_scales") != ["1", "1"] or case.get("origin") != ["0", "0"]:
+                yield {**case, "pixel_scales": ["1", "1"], "origin": ["0", "0"]}
+            if not isinstance(case.get("sub"), int) and case["dim"] != "sub_pixels":
+                yield {**case, "sub": 1}
             return
         # fewer objects
         if len(case["objs"]) > 1:
@@ -939,7 +1996,26 @@ class C04(PropertyCheck):
                 yield {**case, "mask": {**mj, "bits": bits[:i] + "1" + bits[i + 1:]}, "objs": objs, "sub": sub}
 
     def sample_view(self, case):
-        return {k: v for k, v in case.items() if not k.startswith("_")}
+        view = {k: v for k, v in case.items() if not k.startswith("_") and k != "materialised"}
+        if case.get("large"):
+            # large cases carry recipes, never big literal arrays; for a replay file the small ingredients are
+            # written out as well (ignored when the file is replayed: the recipes are authoritative)
+            try:
+                m = _mask_np(case["mask"])
+                K = _kernel_np(case["kernel"])
+                view["materialised"] = {"note": "arrays follow from the recipes via harness/props/c04.py "
+                                                "(_mask_np, _kernel_np, _native_vals, _func_matrix_np, _points_np)",
+                                        "unmasked_pixels": int((~m).sum()), "kernel_pixels": int(K.size)}
+                if K.size <= 400:
+                    view["materialised"]["kernel"] = [[float(v) for v in r] for r in K]
+                if int((~m).sum()) <= 64:
+                    h, w = m.shape
+                    view["materialised"]["unmasked_yx"] = [[int(y), int(x)] for y, x in zip(*np.nonzero(~m))]
+                    view["materialised"]["data_slim"] = [float(v) for v in _native_vals(case["data"], "data", h, w)[~m]]
+                    view["materialised"]["noise_slim"] = [float(v) for v in _native_vals(case["noise"], "noise", h, w)[~m]]
+            except Exception:
+                pass
+        return view
 
     def theorems_for(self, case):
         if case.get("kind") == "mirrored":
